@@ -139,7 +139,7 @@ def run(ctx):
     ctx.cov["rule"] = ("script = stage config + environment moves (send, close, receive, cancel, goroutine census) with the cancel and the close "
                        "at random / every position, replayed under testing/synctest; non-trivial = a send completed and something was observed; distinct by script text")
     ctx.assumptions += ls.ASSUME
-    ls.regen_stages(ctx, pipe=True, fork=False)
+    ls.regen_stages(ctx, pipe=True, fork=False, sources=True)
     ctx.prove()
     if ctx.thorough():
         ctx.leanchecker()
